@@ -142,6 +142,14 @@ static void ref_site() {
   else {
     uint64_t s0 = nondet_u64() & 0xFFFFFFFFFFull, s1 = nondet_u64() & 0xFFFFFFFFFFull;
     sec(0)->_offset = s0; sec(1)->_offset = s1;
+    // hand-over re-stated for the symbolic executor: the reference to a label bound elsewhere is one fixup (first arena object) at
+    // the head of the cross-section list, carrying the label id; the label entry itself is untouched
+    Fixup* xf = reinterpret_cast<Fixup*>(arena_bytes);
+    V_CONCRETIZE(c->_fixups, xf, "foreign-section target: the fixup heads the cross-section list");
+    V_CONCRETIZE(xf->next, static_cast<Fixup*>(nullptr), "foreign-section target: the cross-section list held nothing else");
+    V_CONCRETIZE(xf->label_or_reloc_id, id, "foreign-section target: the fixup names the label");
+    V_CONCRETIZE(xf->section_id, 0u, "foreign-section target: the fixup names the emitting section");
+    V_ASSERT(label_tab[id].is_bound() && label_tab[id].section_id() == 1 && label_tab[id]._offset_or_fixups == lo, "foreign-section target: the label stays bound where it was");
     berr = c->resolve_cross_section_fixups();
     target = s1 + lo + addend; ip_base = s0;
   }
